@@ -279,6 +279,17 @@ def run(run: Run):
     run.guard('C13.R4', r4, run, rt)
     run.guard('C13.R5', r5, run, src, g, em, rt)
     run.guard('C13.R6', check_plumbing, run, 'C13.R6', src, em, rt, FUNCS)
+    # a function result depends on its arguments only: no runtime helper keeps results or other state between calls
+    from .common import borrow as _borrow
+    from . import c08 as _c08
+    from ..callgraph import get_callgraph as _gcg
+    from ..source import get_source as _gs
+    from ..runtime import get_runtime as _grt
+    run.rule('C13.R7', 'runtime helpers are pure functions of their arguments: no write effects, no value cache (shared with C08.R1/R4)')
+    _src = _gs()
+    _borrow(run, 'C13.R7', _c08.r1, _src, _grt(_src), _gcg(_src))
+    _borrow(run, 'C13.R7', _c08.r4, _src, _grt(_src))
+    run.floor('C13.R7', 50)
     run.floor('C13.R1', 2)
     run.floor('C13.R2', 3)
     run.floor('C13.R3', 20)
